@@ -162,14 +162,26 @@ def run(ctx):
         # input paths of different depths (a shallow root given BEFORE a deeper one) and nested input paths: the order of the
         # sub-groups is the order given, whatever the depth
         if nroots >= 2 and rng.chance(2, 3):
-            nested = rng.chance(1, 3)
+            nested = rng.chance(1, 2)
             host = roots[0] if nested else roots[1]
             subdirs = sorted({os.path.dirname(f["path"]) for f in tree.files
                               if os.path.dirname(f["path"]).startswith(host + b"/")}, key=lambda d: (-d.count(b"/"), d))
             if subdirs:
                 deep = subdirs[rng.below(min(3, len(subdirs)))]
                 roots = [roots[0], deep] + roots[2:]
-                ctx.bump("root_depths", "nested" if nested else "shallow_before_deeper")
+                inner_first = nested and rng.chance(1, 2)
+                if inner_first:
+                    # the INNER root given before the outer one: its files belong to it (first matching root), the rest of the
+                    # outer root's files to the outer root, whatever file was looked at before
+                    roots = [deep, roots[0]] + roots[2:]
+                    # one content class with members in the outer root only AND in the inner root, interleaved in path order
+                    f0 = tree.files[rng.below(len(tree.files))]
+                    data0 = open(f0["path"], "rb").read()
+                    for d_, n_ in ((host, b"aa_outer"), (deep, b"mm_inner"), (host, b"zz_outer"), (deep, b"aa_inner")):
+                        tp = os.path.join(d_, n_)
+                        if not os.path.lexists(tp):
+                            tree.add_file(tp, data0, f0["cls"])
+                ctx.bump("root_depths", ("nested_inner_first" if inner_first else "nested") if nested else "shallow_before_deeper")
         # twin names differing only in a byte that is not valid UTF-8 (same directory, same content): the listing order
         # must be the derived Path order whatever the inode / arrival order
         twin_dir = None
